@@ -521,3 +521,65 @@ pub fn kcgr_cli(ctx: &Ctx) -> Stats {
         }
     })
 }
+
+/// thousands of short records: row order of both CGR writers under 2..16 threads and batch limits
+pub fn manyrecs(ctx: &Ctx) -> Stats {
+    let n = ctx.n(6, 50);
+    par_cases(ctx, n, |idx, st| {
+        let mut rng = Rng::keyed(ctx.seed, "cgr.manyrecs", idx);
+        let nrec = rng.usize(1100, 6000);
+        let s = pick_size(&mut rng);
+        let threads = rng.usize(2, 16);
+        let memory = *rng.pick(&[1usize, 2000, 200_000, 4 << 30]);
+        let sc = Scratch::new(ctx, "cgrm");
+        st.case(true, mix(idx) ^ mix(nrec as u64));
+        if idx % 2 == 0 {
+            // whole-sequence CGR: nucleotide records of uneven length
+            let recs: Vec<Rec> = (0..nrec).map(|i| Rec { id: format!("m{}", i), desc: None, seq: { let l = if rng.chance(1, 25) { rng.usize(200, 900) } else { rng.usize(0, 40) }; nuc_seq(&mut rng, l) } }).collect();
+            let inp = sc.write("in.fa", &ser::to_fasta(&recs, &SerOpts::plain()));
+            let outp = sc.path("out.cgr");
+            st.class("whole-sequence");
+            let case = || Json::obj().set("S", Json::Int(s as i128)).set("threads", Json::u(threads)).set("batch_limit", Json::Int(memory as i128)).set("n_records", Json::u(recs.len())).set("records", recs_json(&recs));
+            match run_cgr_file(&inp, &outp, s, threads, memory) {
+                Ok(Ok(())) => {
+                    let data = std::fs::read(&outp).unwrap_or_default();
+                    let ls = lines(&data);
+                    if ls.len() != recs.len() {
+                        st.violate("cgr.file.rowcount:manyrecs", format!("{} rows for {} records", ls.len(), recs.len()), case());
+                        return;
+                    }
+                    for (i, (l, rec)) in ls.iter().zip(recs.iter()).enumerate() {
+                        let ok = match parse_points(l, 2) {
+                            Ok(p) => check_points(&rec.seq, s, &p.iter().map(|v| (v[0], v[1])).collect::<Vec<_>>()).is_ok(),
+                            Err(_) => false,
+                        };
+                        if !ok {
+                            st.violate("cgr.file.row_order:manyrecs", format!("row {} is not the CGR of record {}", i, i), case());
+                            return;
+                        }
+                    }
+                }
+                Ok(Err(e)) => st.violate("cgr.file.error", e, case()),
+                Err(p) => st.violate(&panic_sig(&p), p, case()),
+            }
+        } else {
+            let k = rng.usize(1, 3);
+            let norm = rng.chance(1, 2);
+            let recs = super::c05::many_records(&mut rng, nrec);
+            let inp = sc.write("in.fa", &ser::to_fasta(&recs, &SerOpts::plain()));
+            st.class("k-mer CGR");
+            let case = || Json::obj().set("k", Json::u(k)).set("S", Json::Int(s as i128)).set("norm", Json::Bool(norm)).set("threads", Json::u(threads)).set("batch_limit", Json::Int(memory as i128)).set("n_records", Json::u(recs.len())).set("records", recs_json(&recs));
+            match run_kcgr(&inp, &sc.path("out.kcgr"), k, s, norm, threads, memory) {
+                Ok(d) => {
+                    if let Err((sig, msg)) = check_oligocgr_rows(&d, &recs, k, s, norm) {
+                        st.violate(&format!("{}:manyrecs", sig), msg, case());
+                    }
+                }
+                Err((sig, msg)) => st.violate(&sig, msg, case()),
+            }
+        }
+        if idx % 7 == 0 {
+            st.sample(Json::obj().set("n_records", Json::u(nrec)).set("threads", Json::u(threads)).set("batch_limit", Json::Int(memory as i128)));
+        }
+    })
+}
